@@ -8,17 +8,22 @@ Import ListNotations.
 Open Scope Z_scope.
 
 (* ------------------------------------------------------------------ side conditions *)
-(* the io half of a page-out job issued for a Dataset object that was purged meanwhile finds a segment under its name *)
+(* a body step (attach+write, or unlink) of a page-out job issued for a Dataset object that was purged meanwhile finds a
+   segment under its name *)
+Definition orphan_sees_segment (s : state) (j : N) (p : jphase) : bool :=
+  match find_job j (jobs s) with
+  | Some jb => match j_kind jb with
+               | PageOut => (match j_phase jb, p with IoPending, IoPending | UnlinkPending, UnlinkPending => true | _, _ => false end)
+                            && j_orphan jb && match lookup (j_key jb) (segs s) with Some _ => true | None => false end
+               | PageIn => false
+               end
+  | None => false
+  end.
+
 Definition io_races (s : state) (o : op) : bool :=
   match o with
-  | JobIo j _ =>
-      match find_job j (jobs s) with
-      | Some jb => match j_kind jb, j_phase jb with
-                   | PageOut, IoPending => j_orphan jb && match lookup (j_key jb) (segs s) with Some _ => true | None => false end
-                   | _, _ => false
-                   end
-      | None => false
-      end
+  | JobIo j _ => orphan_sees_segment s j IoPending
+  | JobUnlink j => orphan_sees_segment s j UnlinkPending
   | _ => false
   end.
 
@@ -52,6 +57,8 @@ Definition at_ (m : list (key * bytes)) (k : key) (ds : dataset) : Prop :=
 Definition job_claim (sg fl : list (key * bytes)) (j : job) (ds : dataset) : Prop :=
   match j_kind j, j_phase j with
   | PageOut, IoPending => at_ sg (j_key j) ds
+  | PageOut, UnlinkPending => at_ fl (j_key j) ds
+  | PageIn, UnlinkPending => True
   | PageOut, CbPending true => at_ fl (j_key j) ds
   | PageIn, IoPending => at_ fl (j_key j) ds
   | PageIn, CbPending true => at_ sg (j_key j) ds
@@ -101,7 +108,7 @@ Lemma job_claim_frame : forall sg fl sg' fl' j ds,
   job_claim sg fl j ds -> job_claim sg' fl' j ds.
 Proof.
   intros sg fl sg' fl' j ds Hs Hf H. unfold job_claim in *.
-  destruct (j_kind j), (j_phase j) as [|[|]]; auto.
+  destruct (j_kind j), (j_phase j) as [| |[|]]; auto.
 Qed.
 
 (* mutate the dataset under k, keeping its written bytes and size *)
@@ -131,7 +138,7 @@ Proof.
   - intros j ds0 Hin Ho L. destruct (N.eq_dec k (j_key j)) as [Heq|Hne].
     + rewrite <- Heq, lookup_alter_same, Hl in L. inversion L; subst ds0.
       specialize (E j ds Hin Ho). rewrite <- Heq in E. specialize (E Hl).
-      unfold job_claim in *. destruct (j_kind j), (j_phase j) as [|[|]]; auto.
+      unfold job_claim in *. destruct (j_kind j), (j_phase j) as [| |[|]]; auto.
     + rewrite lookup_alter_other in L by assumption. eauto.
 Qed.
 
@@ -183,7 +190,7 @@ Proof.
    | intros j' ds0 Hin Ho L; destruct (in_orphan_map_phase _ _ _ Hin Ho) as [j [I1 [I2 [I3 [I4 [I5 I6]]]]]];
      rewrite I4 in L; rewrite lookup_remove_other in L by congruence;
      specialize (E j ds0 I1 I2 L); unfold job_claim in *; rewrite I4, I5, I6;
-     destruct (j_kind j), (j_phase j) as [|[|]]; auto; apply at_remove_other; auto ]).
+     destruct (j_kind j), (j_phase j) as [| |[|]]; auto; apply at_remove_other; auto ]).
 Qed.
 
 Lemma maybe_delayed_purge_binv : forall s k, Inv s -> BInv s -> BInv (maybe_delayed_purge k s).
@@ -346,50 +353,60 @@ Proof.
   specialize (H3 y ds Hin). subst x. destruct (N.eqb (j_id y) j); cbn in *; eauto.
 Qed.
 
+Lemma job_step_setup : forall s jb,
+  Inv s -> NoDup (map j_id (jobs s)) -> In jb (jobs s) ->
+  (forall y, In y (jobs s) -> N.eqb (j_id y) (j_id jb) = true -> y = jb) /\
+  (forall y, In y (jobs s) -> j_orphan y = false -> j_orphan jb = false -> N.eqb (j_id y) (j_id jb) = false -> j_key y <> j_key jb).
+Proof.
+  intros s jb HI Hids Hin. split.
+  - intros y Hy E. apply N.eqb_eq in E. eapply (NoDup_map_inj_in j_id); eauto.
+  - intros y Hy Hoy Hob E Hk. assert (y = jb) by (eapply live_key_unique; eauto; apply (inv_live _ HI)).
+    subst y. rewrite N.eqb_refl in E. discriminate.
+Qed.
+
+(* a failing body step changes nothing but the phase (and may add a segment under a name that had none) *)
+Lemma bi_fail : forall s jb sg',
+  BInv s -> (forall k ds, at_ (segs s) k ds -> at_ sg' k ds) ->
+  BI (dsets s) sg' (files s) (update_job (j_id jb) (set_phase (CbPending false)) (jobs s)).
+Proof.
+  intros s jb sg' HB Hsg. eapply bi_io_frame; [exact HB| | |]; eauto.
+  intros y ds Hy Hoy Ly Hc. destruct (N.eqb (j_id y) (j_id jb)) eqn:E.
+  - unfold job_claim. cbn. destruct (j_kind y); exact I.
+  - eapply job_claim_frame; [| |exact Hc]; auto.
+Qed.
+
 Lemma job_io_binv : forall s j f,
   Inv s -> NoDup (map j_id (jobs s)) -> BInv s -> io_races s (JobIo j f) = false -> BInv (fst (job_io j f s)).
 Proof.
-  intros s j f HI Hids HB Hr. unfold job_io. unfold io_races in Hr.
+  intros s j f HI Hids HB Hr. unfold job_io. cbn [io_races] in Hr. unfold orphan_sees_segment in Hr.
   destruct (find_job j (jobs s)) as [jb|] eqn:Hf; [|assumption].
-  destruct (j_phase jb) eqn:Hp; [|assumption]. cbn [fst].
+  destruct (j_phase jb) eqn:Hp; [|assumption|assumption]. cbn [fst].
   apply find_job_in in Hf. destruct Hf as [Hin Hid]. subst j.
-  assert (Hsame : forall y, In y (jobs s) -> N.eqb (j_id y) (j_id jb) = true -> y = jb).
-  { intros y Hy E. apply N.eqb_eq in E. eapply (NoDup_map_inj_in j_id); eauto. }
-  assert (Hother : forall y, In y (jobs s) -> j_orphan y = false -> j_orphan jb = false ->
-                   N.eqb (j_id y) (j_id jb) = false -> j_key y <> j_key jb).
-  { intros y Hy Hoy Hob E Hk. assert (y = jb) by (eapply live_key_unique; eauto; apply (inv_live _ HI)).
-    subst y. rewrite N.eqb_refl in E. discriminate. }
-  (* a failing body changes nothing but the phase *)
-  assert (Hfail : forall sg', (forall k ds, at_ (segs s) k ds -> at_ sg' k ds) ->
-          BI (dsets s) sg' (files s) (update_job (j_id jb) (set_phase (CbPending false)) (jobs s))).
-  { intros sg' Hsg. eapply bi_io_frame; [exact HB| | |]; eauto.
-    intros y ds Hy Hoy Ly Hc. destruct (N.eqb (j_id y) (j_id jb)) eqn:E.
-    - unfold job_claim. cbn. destruct (j_kind y); exact I.
-    - eapply job_claim_frame; [| |exact Hc]; auto. }
+  destruct (job_step_setup s jb HI Hids Hin) as [Hsame Hother].
   destruct (j_kind jb) eqn:Hk.
-  - (* page-out body *)
-    unfold io_page_out. destruct (lookup (j_key jb) (segs s)) as [bs|] eqn:Hg; [|apply Hfail; auto].
-    destruct f; [apply Hfail; auto|].
+  - (* page-out body, first half: the file is written *)
+    unfold io_page_out, finish_io, to_phase. destruct (lookup (j_key jb) (segs s)) as [bs|] eqn:Hg; [|unfold BInv; unf; apply bi_fail; auto].
+    destruct f; [unfold BInv; unf; apply bi_fail; auto|].
     destruct (j_orphan jb) eqn:Ho; [discriminate|].
     destruct (inv_jobs _ HI jb Hin Ho) as [ds [L1 [L2 L3]]]. rewrite Hk in L3. cbn in L3.
-    unfold BInv, finish_io. unf.
+    unfold BInv. unf.
     eapply bi_io_frame; [exact HB| | |].
-    + intros k0 ds0 L S0 H. destruct (N.eq_dec (j_key jb) k0) as [<-|Hne]; [congruence|]. now apply at_remove_other.
+    + auto.
     + intros k0 ds0 L S0 H. destruct (N.eq_dec (j_key jb) k0) as [<-|Hne]; [congruence|]. now apply at_put_other.
     + intros y dy Hy Hoy Ly Hc. destruct (N.eqb (j_id y) (j_id jb)) eqn:E.
       * rewrite (Hsame y Hy E) in *. rewrite L1 in Ly. inversion Ly; subst dy.
         unfold job_claim in *. cbn. rewrite Hk, Hp in *. intros w Hw. specialize (Hc w Hw).
         rewrite Hg in Hc. inversion Hc; subst w. apply lookup_put_same.
       * pose proof (Hother y Hy Hoy eq_refl E) as Hne.
-        eapply job_claim_frame; [| |exact Hc]; intro H; [apply at_remove_other|apply at_put_other]; auto.
+        eapply job_claim_frame; [| |exact Hc]; intro H; [assumption|apply at_put_other]; auto.
   - (* page-in body: at most a segment is added under a name that had none *)
-    unfold io_page_in. destruct (j_size jb =? 0)%N eqn:Ez; [apply Hfail; auto|].
-    destruct (lookup (j_key jb) (segs s)) eqn:Hg; [apply Hfail; auto|].
+    unfold io_page_in, finish_io, to_phase. destruct (j_size jb =? 0)%N eqn:Ez; [unfold BInv; unf; apply bi_fail; auto|].
+    destruct (lookup (j_key jb) (segs s)) eqn:Hg; [unfold BInv; unf; apply bi_fail; auto|].
     assert (Hadd : forall c k ds, at_ (segs s) k ds -> at_ (segs s ++ [(j_key jb, c)]) k ds) by (intros; now apply at_add).
-    destruct f; [unfold BInv, finish_io; unf; apply Hfail; auto|].
-    destruct (lookup (j_key jb) (files s)) as [fc|] eqn:Hfl; [|unfold BInv, finish_io; unf; apply Hfail; auto].
-    destruct (N.of_nat (List.length fc) <=? j_size jb)%N eqn:Elen; [|unfold BInv, finish_io; unf; apply Hfail; auto].
-    unfold BInv, finish_io. unf.
+    destruct f; [unfold BInv; unf; apply bi_fail; auto|].
+    destruct (lookup (j_key jb) (files s)) as [fc|] eqn:Hfl; [|unfold BInv; unf; apply bi_fail; auto].
+    destruct (N.of_nat (List.length fc) <=? j_size jb)%N eqn:Elen; [|unfold BInv; unf; apply bi_fail; auto].
+    unfold BInv. unf.
     eapply bi_io_frame; [exact HB| | |]; eauto.
     intros y dy Hy Hoy Ly Hc. destruct (N.eqb (j_id y) (j_id jb)) eqn:E.
     + rewrite (Hsame y Hy E) in *.
@@ -399,6 +416,29 @@ Proof.
       pose proof (b_len _ _ _ _ HB (j_key jb) ds w L1 Hw) as Hl. rewrite L2 in Hl.
       rewrite lookup_app_end, Hg, N.eqb_refl. rewrite Hl, N.sub_diag, zeros_0, app_nil_r. reflexivity.
     + eapply job_claim_frame; [| |exact Hc]; auto.
+Qed.
+
+Lemma job_unlink_binv : forall s j,
+  Inv s -> NoDup (map j_id (jobs s)) -> BInv s -> io_races s (JobUnlink j) = false -> BInv (fst (job_unlink j s)).
+Proof.
+  intros s j HI Hids HB Hr. unfold job_unlink. cbn [io_races] in Hr. unfold orphan_sees_segment in Hr.
+  destruct (find_job j (jobs s)) as [jb|] eqn:Hf; [|assumption].
+  destruct (j_kind jb) eqn:Hk; [|assumption].
+  destruct (j_phase jb) eqn:Hp; try assumption. cbn [fst].
+  apply find_job_in in Hf. destruct Hf as [Hin Hid]. subst j.
+  destruct (job_step_setup s jb HI Hids Hin) as [Hsame Hother].
+  unfold finish_io, to_phase.
+  destruct (lookup (j_key jb) (segs s)) as [bs|] eqn:Hg; [|unfold BInv; unf; apply bi_fail; auto].
+  destruct (j_orphan jb) eqn:Ho; [discriminate|].
+  destruct (inv_jobs _ HI jb Hin Ho) as [ds [L1 [L2 L3]]]. rewrite Hk in L3. cbn in L3.
+  unfold BInv. unf.
+  eapply bi_io_frame; [exact HB| | |].
+  - intros k0 ds0 L S0 H. destruct (N.eq_dec (j_key jb) k0) as [<-|Hne]; [congruence|]. now apply at_remove_other.
+  - auto.
+  - intros y dy Hy Hoy Ly Hc. destruct (N.eqb (j_id y) (j_id jb)) eqn:E.
+    + rewrite (Hsame y Hy E) in *. unfold job_claim in *. cbn. rewrite Hk, Hp in *. exact Hc.
+    + pose proof (Hother y Hy Hoy eq_refl E) as Hne.
+      eapply job_claim_frame; [| |exact Hc]; intro H; [apply at_remove_other|]; auto.
 Qed.
 
 Lemma drop_binv : forall s j, BInv s -> BInv (with_jobs (drop_job j (jobs s)) s).
@@ -411,7 +451,7 @@ Lemma job_cb_binv : forall s j, Inv s -> BInv s -> races s (JobCb j) = false -> 
 Proof.
   intros s j HI HB Hr. unfold job_cb. unfold races in Hr.
   destruct (find_job j (jobs s)) as [jb|] eqn:Hf; [|assumption].
-  destruct (j_phase jb) as [|ok] eqn:Hp; [assumption|]. cbn [fst].
+  destruct (j_phase jb) as [| |ok] eqn:Hp; [assumption|assumption|]. cbn [fst].
   apply find_job_in in Hf. destruct Hf as [Hin Hid].
   pose proof (drop_inv s j HI) as HI0. pose proof (drop_binv s j HB) as HB0.
   set (s0 := with_jobs (drop_job j (jobs s)) s) in *.
@@ -441,6 +481,7 @@ Proof.
   - now apply get_binv.
   - cbn [fst]. now apply purge_binv.
   - now apply job_io_binv.
+  - now apply job_unlink_binv.
   - now apply job_cb_binv.
   - assumption.
   - assumption.
@@ -486,7 +527,7 @@ Qed.
    takes the new segment to disk: K is readable, and its bytes are gone *)
 Definition bytes_witness : list op := [
   Add 0%N 6%N 10; Write 0%N [1;2;3;4;5;6]%N; Close 0%N None; Add 1%N 6%N 20; Purge 0%N;
-  Add 0%N 6%N 30; Write 0%N [10;11;12;13;14;15]%N; Close 0%N None; JobIo 0%N false; JobCb 0%N ].
+  Add 0%N 6%N 30; Write 0%N [10;11;12;13;14;15]%N; Close 0%N None; JobIo 0%N false; JobUnlink 0%N; JobCb 0%N ].
 
 Theorem bytes_refuted :
   exists cap ops k now u bs,
@@ -619,14 +660,16 @@ Proof.
         (eapply ci_alter; eauto; intros _; cbn; apply (H k ds Hl); rewrite Es; discriminate).
   - cbn [fst]. now apply purge_ci.
   - unfold job_io. destruct (find_job j (jobs s)) as [jb|]; [|assumption].
-    destruct (j_phase jb); [|assumption]. cbn [fst]. destruct (j_kind jb).
+    destruct (j_phase jb); [|assumption|assumption]. cbn [fst]. destruct (j_kind jb).
     + unfold io_page_out. destruct (lookup (j_key jb) (segs s)); [destruct fault|]; assumption.
     + unfold io_page_in. destruct (j_size jb =? 0)%N; [assumption|].
       destruct (lookup (j_key jb) (segs s)); [assumption|]. destruct fault; [assumption|].
       destruct (lookup (j_key jb) (files s)); [|assumption]. destruct (_ <=? _)%N; assumption.
+  - unfold job_unlink. destruct (find_job j (jobs s)) as [jb|]; [|assumption].
+    destruct (j_kind jb), (j_phase jb); try assumption. cbn [fst]. destruct (lookup (j_key jb) (segs s)); assumption.
   - unfold job_cb. unfold races in Hr.
     destruct (find_job j (jobs s)) as [jb|] eqn:Hf; [|assumption].
-    destruct (j_phase jb) as [|ok]; [assumption|]. cbn [fst].
+    destruct (j_phase jb) as [| |ok]; [assumption|assumption|]. cbn [fst].
     apply find_job_in in Hf. destruct Hf as [Hin Hid].
     assert (Hlive : j_orphan jb = false -> exists ds, lookup (j_key jb) (dsets s) = Some ds /\ d_status ds = job_status (j_kind jb)).
     { intro Ho. destruct (inv_jobs _ HI jb Hin Ho) as [ds [L1 [_ L3]]]. eauto. }
@@ -676,7 +719,7 @@ Proof. intros s k ds now u Hl Hs. cbn [step]. unfold get. rewrite Hl, Hs. reflex
 (* the finding: a writer slower than STALE_CREATE under memory pressure is paged out as abandoned; paged back in, its
    dataset is handed to readers although the writer never finished *)
 Definition stale_writer_witness : list op := [
-  Add 0%N 3%N 1; Write 0%N [1;2;3]%N; Add 1%N 3%N 2; Add 1%N 3%N 900000000003; JobIo 0%N false; JobCb 0%N;
+  Add 0%N 3%N 1; Write 0%N [1;2;3]%N; Add 1%N 3%N 2; Add 1%N 3%N 900000000003; JobIo 0%N false; JobUnlink 0%N; JobCb 0%N;
   Add 1%N 3%N 900000000004; Write 1%N [10;11;12]%N; Purge 1%N; Get 0%N 900000000005 [1%N]; JobIo 1%N false; JobCb 1%N ].
 
 Theorem read_before_close_refuted :
